@@ -2,7 +2,7 @@
 # seedtest.sh <patchfile> <Cxx> [Cyy ...]: apply a seeded change to /repo, run the quick checks, undo it.
 # Evidence files are saved and restored: committed evidence must come from runs on the unchanged tree.
 PATCH=$(realpath $1); shift
-cd /verif
+cd "$(dirname "$(realpath "$0")")"
 SAVE=$(mktemp -d /var/tmp/evidence-save.XXXXXX); cp -a evidence/. $SAVE/
 git -C /repo apply $PATCH || { rm -rf $SAVE; exit 2; }
 for p in "$@"; do ./check $p --tier quick 2>&1 | grep -v '^  ' | sed "s|^|[$p] |" | tail -8; done
